@@ -1,10 +1,10 @@
 //verif:pkg pkg/core
 //verif:use store,corehelp
-//verif:assume shapes: (0) 2 splits x paths {a, d/b}, per (split, path) absent or present with a symbolic 1-byte hash, symbolic pairwise distinct upload seconds; (1) 3 splits x path a, all present, split k uploaded at second k; (2, thorough) 3 splits x 2 paths with symbolic presence and seconds. Upload times are whole seconds without monotonic clock reading, as after YAML decoding
+//verif:assume shapes: (0) 2 splits x paths {a, d/b} or {.env, env}, per (split, path) absent or present with a symbolic 1-byte hash, symbolic pairwise distinct upload seconds; (1) 3 splits x path a, all present, split k uploaded at second k; (2, thorough) 3 splits x 2 paths with symbolic presence and seconds. Upload times are whole seconds without monotonic clock reading, as after YAML decoding
 //verif:assume arrival order: each split's file list is one index file (shape 2: one index file per path); the index files are handed to the real downloader in a solver-chosen permutation with filelist concurrency 1, so arrival order = that permutation
 //verif:assume yaml.v2 modelled as round-tripping opaque documents; the metadata store is the in-memory model
 //verif:assume when several losing splits uploaded the same content for a path, the oracle accepts that content being kept under any one of them (the statement says "every other distinct version")
-//verif:cover VerifC11Merge conflict-kept newer-arrives-last older-arrives-last forbid-fails identical-no-conflict
+//verif:cover VerifC11Merge conflict-kept newer-arrives-last older-arrives-last forbid-fails identical-no-conflict dot-file-names
 package core
 
 import (
@@ -83,6 +83,11 @@ func VerifC11Merge() {
 	}
 	if shape == 1 {
 		paths = paths[:1]
+	}
+	if shape == 0 && vChoose("dotNames", 2) == 1 {
+		// a dot file and its undotted twin: their conflict copies must stay apart
+		paths = []string{".env", "env"}
+		vCover("dot-file-names")
 	}
 	perPathBatches := shape == 2
 	splitIDs := []string{"s1", "s2", "s3"}[:S]
